@@ -870,10 +870,14 @@ func runUninitMatrix(r *mon.Run) {
 		{"DoubleScalarMultBasepointVartime", 1, func(v *Point, o []*Point, s *Scalar) { v.DoubleScalarMultBasepointVartime(s, s, o[0]) }, true},
 		{"MultiScalarMult[1]", 1, func(v *Point, o []*Point, s *Scalar) { v.MultiScalarMult([]*Scalar{s}, []*Point{o[0]}) }, true},
 		{"MultiScalarMult[2]", 2, func(v *Point, o []*Point, s *Scalar) { v.MultiScalarMult([]*Scalar{s, s}, []*Point{o[0], o[1]}) }, true},
-		{"MultiScalarMult[3]", 3, func(v *Point, o []*Point, s *Scalar) { v.MultiScalarMult([]*Scalar{s, s, s}, []*Point{o[0], o[1], o[2]}) }, true},
+		{"MultiScalarMult[3]", 3, func(v *Point, o []*Point, s *Scalar) {
+			v.MultiScalarMult([]*Scalar{s, s, s}, []*Point{o[0], o[1], o[2]})
+		}, true},
 		{"MultiScalarMultVartime[1]", 1, func(v *Point, o []*Point, s *Scalar) { v.MultiScalarMultVartime([]*Scalar{s}, []*Point{o[0]}) }, true},
 		{"MultiScalarMultVartime[2]", 2, func(v *Point, o []*Point, s *Scalar) { v.MultiScalarMultVartime([]*Scalar{s, s}, []*Point{o[0], o[1]}) }, true},
-		{"MultiScalarMultVartime[3]", 3, func(v *Point, o []*Point, s *Scalar) { v.MultiScalarMultVartime([]*Scalar{s, s, s}, []*Point{o[0], o[1], o[2]}) }, true},
+		{"MultiScalarMultVartime[3]", 3, func(v *Point, o []*Point, s *Scalar) {
+			v.MultiScalarMultVartime([]*Scalar{s, s, s}, []*Point{o[0], o[1], o[2]})
+		}, true},
 		{"NewPublicKeyFromPoint", 1, func(v *Point, o []*Point, s *Scalar) { _, _ = secec.NewPublicKeyFromPoint(o[0]) }, false},
 		{"NewSchnorrPublicKeyFromPoint", 1, func(v *Point, o []*Point, s *Scalar) { _, _ = bitcoin.NewSchnorrPublicKeyFromPoint(o[0]) }, false},
 		{"ScalarBaseMult", 0, func(v *Point, o []*Point, s *Scalar) { v.ScalarBaseMult(s) }, true},
